@@ -437,3 +437,16 @@ func (g *Gate) SendRacy(v int) bool {
 		return true
 	}
 }
+
+// --- opt: nonblocking ---
+
+// Offer drops the value when nobody is ready: it cannot wait.
+func (g *Gate) Offer(v int) {
+	select {
+	case g.work <- v:
+	default:
+	}
+}
+
+// Push waits for room.
+func (g *Gate) Push(v int) { g.work <- v }
